@@ -23,7 +23,8 @@ def generate(module, cfg, dest, tag, workers=4, timeout=3000, simulate=None, see
     md = os.path.join(OUT, "tlc", tag)
     subprocess.run(["rm", "-rf", md])
     env = dict(os.environ)
-    env["JAVA_TOOL_OPTIONS"] = "-Xss64m -Xmx8g"
+    import vlib
+    env["JAVA_TOOL_OPTIONS"] = "-Xss64m -Xmx8g" + vlib._java_tmp()
     cmd = ["tlc", "-workers", str(workers), "-metadir", md, "-cleanup", "-noGenerateSpecTE", "-config", cfg]
     if simulate:
         cmd += ["-seed", str(seed), "-simulate", "num=%d" % simulate[0], "-depth", str(simulate[1])]
